@@ -439,7 +439,8 @@ def g1_stage(ctx):
         return
     exe = os.path.join(tdir, "c06g1")
     bound = 3 if ctx.thorough() else 2
-    rc, out = vlib.sh([exe, "exh", str(bound), "200000"], timeout=600)
+    progs = [] if ctx.thorough() else ["acq,lrel|acq", "acq,lrel|acq,lrel"]
+    rc, out = vlib.sh([exe, "exh", str(bound), "200000"] + progs, timeout=600)
     lines = [l for l in out.split("\n") if l.startswith("X ")]
     if rc != 0 or not lines:
         ctx.violation("G1 registry exploration failed", {"rc": rc, "tail": out[-800:]}, no_input=True)
